@@ -11,7 +11,7 @@ import time
 
 ROOT = os.path.dirname(os.path.dirname(os.path.abspath(__file__)))
 
-SHRINK_BUDGET_RUNS = 60
+SHRINK_BUDGET_RUNS = 80
 SHRINK_BUDGET_S = 240
 
 
@@ -92,6 +92,14 @@ def _candidates_gfisim(script, v):
                 c = copy.deepcopy(sc)
                 del c["steps"][i]["constraint"][j]
                 yield "cons", c
+    # 6b. simpler program with the same signature
+    try:
+        for what, prog in _program_candidates(sc["programs"][0]):
+            c = copy.deepcopy(sc)
+            c["programs"][0] = prog
+            yield what, _fix_steps_for_program(c)
+    except Exception:
+        pass
     # 7. simpler encodings / api
     for i, st in enumerate(sc["steps"]):
         if st.get("build") not in (None, "set"):
@@ -106,6 +114,101 @@ def _candidates_gfisim(script, v):
             c = copy.deepcopy(sc)
             c["steps"][i]["api"] = "req.edit"
             yield "api", c
+
+
+def _renumber(e, j):
+    """expression with references to statement values > j shifted down by one"""
+    if isinstance(e, list):
+        if len(e) == 2 and e[0] == "v" and isinstance(e[1], int):
+            return ["v", e[1] - 1] if e[1] > j else e
+        return [_renumber(x, j) for x in e]
+    if isinstance(e, dict):
+        return {k: _renumber(x, j) for k, x in e.items()}
+    return e
+
+
+def _refs_v(e, j):
+    from sim.texpr import expr_refs
+
+    return ("v", j) in expr_refs(e)
+
+
+def _program_candidates(node, path=()):
+    """(description, new root) for simpler programs with the SAME signature:
+    drop a static statement whose value nothing reads; replace a `map` by its
+    inner function when the output type is the same."""
+    from sim.ref import inner_nodes, sig
+
+    out = []
+
+    def rebuild(root, path, repl):
+        if not path:
+            return repl
+        root = copy.deepcopy(root)
+        cur = root
+        for key in path[:-1]:
+            cur = cur[key] if not isinstance(key, tuple) else cur[key[0]][key[1]]
+        key = path[-1]
+        if isinstance(key, tuple):
+            cur[key[0]][key[1]] = repl
+        else:
+            cur[key] = repl
+        return root
+
+    def walk(n, path, root):
+        k = n["k"]
+        if k == "static" and len(n["stmts"]) > 1:
+            for j in range(len(n["stmts"])):
+                later = [a for s in n["stmts"][j + 1 :] for a in s["args"]] + [x for s in n["stmts"][j + 1 :] for x in (s.get("kw") or {}).values()]
+                if any(_refs_v(a, j) for a in later) or _refs_v(n["ret"], j):
+                    continue
+                m = copy.deepcopy(n)
+                del m["stmts"][j]
+                for s in m["stmts"][j:]:
+                    s["args"] = [_renumber(a, j) for a in s["args"]]
+                    if s.get("kw"):
+                        s["kw"] = {kk: _renumber(x, j) for kk, x in s["kw"].items()}
+                m["ret"] = _renumber(m["ret"], j)
+                out.append(("drop-stmt", rebuild(root, path, m)))
+        if k == "map":
+            try:
+                if sig(n["inner"])[1] == n["out"]:
+                    out.append(("unwrap-map", rebuild(root, path, n["inner"])))
+            except Exception:
+                pass
+        if k == "static":
+            for j, s in enumerate(n["stmts"]):
+                walk(s["callee"], path + (("stmts", j), "callee"), root)
+        elif k in ("switch", "mix"):
+            for j, b in enumerate(n["branches"]):
+                walk(b, path + (("branches", j),), root)
+        elif k == "or_else":
+            walk(n["a"], path + ("a",), root)
+            walk(n["b"], path + ("b",), root)
+        elif "inner" in n:
+            walk(n["inner"], path + ("inner",), root)
+
+    walk(node, (), node)
+    return out
+
+
+def _fix_steps_for_program(sc):
+    """drop constraint entries / sub-requests that address choices the simplified
+    program no longer has"""
+    from sim.ref import universe_map
+    from sim.script import static_root
+
+    uni = set(universe_map(sc["programs"][0]))
+    for st in sc["steps"]:
+        if st.get("constraint") and st.get("op") != "index_edit":
+            st["constraint"] = [e for e in st["constraint"] if tuple(e[0]) in uni]
+        if st.get("op") == "index_edit" and st.get("constraint"):
+            st["constraint"] = [e for e in st["constraint"] if any(tuple(u[1:]) == tuple(e[0]) for u in uni if u and isinstance(u[0], int))]
+        if st.get("op") == "static_edit":
+            sr = static_root(sc["programs"][0])
+            have = {tuple(s["addr"]) for s in sr["stmts"]} if sr else set()
+            st["subs"] = [e for e in st.get("subs", []) if tuple(e["addr"]) in have]
+    return sc
 
 
 def _candidates_generic(script, v):
